@@ -168,3 +168,50 @@ Theorem full_base_path_joined b1 b2 rel :
   b1 <> [] -> b2 <> [] -> rel <> [] -> is_rooted b2 = false \/ (no_up b2 /\ no_up rel) ->
   full_base_path [b2; b1] rel = join2 (join2 b1 b2) rel.
 Proof. intros H1 H2 H3 H. cbn [full_base_path]. symmetry. now apply join2_assoc. Qed.
+
+(* ---- BasePathFile.Name after the fix: the base is trimmed WITHOUT its trailing separator ---- *)
+Lemma join_slash_last (l : list str) : l <> [] -> Forall seg_ok l ->
+  exists c r, rev (join_slash l) = c :: r /\ c <> SLASH.
+Proof.
+  induction l as [|x l IH]; intros Hne Hok; [contradiction|].
+  inversion Hok as [|? ? Hx Hl]; subst.
+  destruct l as [|y l'].
+  - cbn [join_slash]. destruct Hx as [Hn [_ Hsf]].
+    destruct (rev x) as [|c r] eqn:Er.
+    + exfalso. apply Hn. rewrite <- (rev_involutive x), Er. reflexivity.
+    + exists c, r. split; [reflexivity|]. intros ->. apply Hsf. rewrite <- (rev_involutive x), Er.
+      apply in_rev. rewrite rev_involutive. now left.
+  - destruct (IH ltac:(discriminate) Hl) as [c [r [Hr Hc]]].
+    change (join_slash (x :: y :: l')) with (x ++ SLASH :: join_slash (y :: l')).
+    rewrite rev_app_distr. cbn [rev]. rewrite Hr. cbn [app]. rewrite <- app_assoc. cbn [app].
+    exists c, (r ++ SLASH :: rev x). split; [reflexivity | exact Hc].
+Qed.
+
+Lemma trim_suffix_slash_clean b : clean_segs b <> [] -> trim_suffix_slash (clean b) = clean b.
+Proof.
+  intros Hne. pose proof (clean_segs_nf b) as [Hok _].
+  destruct (join_slash_last (clean_segs b) Hne Hok) as [c [r [Hr Hc]]].
+  unfold clean, render, trim_suffix_slash. destruct (is_rooted b).
+  - cbn [rev]. rewrite Hr. cbn [app]. destruct (N.eqb_spec c SLASH); [contradiction | reflexivity].
+  - destruct (clean_segs b) as [|x l] eqn:E; [contradiction|]. rewrite Hr.
+    destruct (N.eqb_spec c SLASH); [contradiction | reflexivity].
+Qed.
+
+Theorem bp_name_shape_fixed base name p :
+  is_rooted (clean base) = true -> real_path base name = Some p ->
+  exists r, clean_segs p = clean_segs base ++ r /\
+    bp_name base p =
+      match clean_segs base, r with
+      | [], _ => p                        (* base "/": the name is the real path itself *)
+      | _ :: _, [] => []                  (* the base directory itself *)
+      | _ :: _, _ :: _ => SLASH :: join_slash r
+      end.
+Proof.
+  intros Hr H. destruct (bp_name_shape base name p H) as [r [Hs Ht]]. exists r. split; [exact Hs|].
+  unfold bp_name. destruct (clean_segs base) as [|x l] eqn:E.
+  - (* clean base = "/" *)
+    assert (Hc : clean base = s_slash).
+    { unfold clean. rewrite is_rooted_clean in Hr. rewrite Hr, E. reflexivity. }
+    rewrite Hc. reflexivity.
+  - rewrite trim_suffix_slash_clean by (rewrite E; discriminate). exact Ht.
+Qed.
